@@ -3,7 +3,7 @@ Proof tier: for the document shapes of specs/isd_shapes.py with symbolic timing 
 ISD.significant_times and ISD.from_model are executed symbolically; on every path the significant times are strictly increasing
 and the snapshot at t equals the snapshot at the greatest significant time not after t (nothing visible before the first).
 Bounded tier: the same relation + `generate_isd_sequence == snapshots at the significant times` on generated documents."""
-from contracts.isd_common import generic_check, h_c02
+from contracts.isd_common import generic_check, h_c02, h_c02_sequence
 
 ASSUMPTIONS = [
   "A-PY/A-SMT; `set` of symbolic times is modelled by value comparison on insertion (pyvc.core.vc_set)",
@@ -11,4 +11,5 @@ ASSUMPTIONS = [
   "proof tier: all timing values and query times, listed shapes only; generate_isd_sequence is bounded-only",
 ]
 check = generic_check("C02", h_c02, "Proved per shape: strictly increasing, complete significant times for all rational timings and query "
-                      "times.  Bounded: random documents x all boundary times and midpoints; generate_isd_sequence.", ASSUMPTIONS)
+                      "times; generate_isd_sequence == snapshots at the significant times.  Bounded: random documents x all boundary times and "
+                      "midpoints; generate_isd_sequence.", ASSUMPTIONS, extra_factories=(h_c02_sequence,))
